@@ -61,6 +61,56 @@ def import_scoda():
     _SCODA_READY = True
 
 
+API_CLASSES = [("scoda.sequences.sequence", "Sequence"), ("scoda.sequences.absolute_sequence", "AbsoluteSequence"),
+               ("scoda.sequences.relative_sequence", "RelativeSequence"), ("scoda.elements.message", "Message"),
+               ("scoda.elements.bar", "Bar"), ("scoda.elements.track", "Track"), ("scoda.elements.composition", "Composition"),
+               ("scoda.tokenisation.notelike_tokenisation", "MultiTrackLargeVocabularyNotelikeTokeniser"),
+               ("scoda.midi.midi_file", "MidiFile")]
+
+
+def api_surface():
+    """Public callables and their parameter names of the classes the operation alphabets were written against."""
+    import importlib
+    import inspect
+    out = {}
+    for mod, cls in API_CLASSES:
+        c = getattr(importlib.import_module(mod), cls)
+        for name, member in sorted(vars(c).items()):
+            if name.startswith("_") and name not in ("__init__", "__eq__"):
+                continue
+            fn = member.__func__ if isinstance(member, (staticmethod, classmethod)) else member
+            if isinstance(member, property):
+                out[f"{cls}.{name}"] = ["<property>"]
+            elif callable(fn):
+                try:
+                    out[f"{cls}.{name}"] = list(inspect.signature(fn).parameters)
+                except (TypeError, ValueError):
+                    out[f"{cls}.{name}"] = ["?"]
+    return out
+
+
+def api_drift():
+    """Differences between the library's public surface and the committed snapshot (informational: a new method or
+    parameter is not explored until the alphabets in sim/ are extended)."""
+    path = os.path.join(VERIF_DIR, "selftest", "api_snapshot.json")
+    if not os.path.exists(path):
+        return []
+    try:
+        snap = json.load(open(path))
+        cur = api_surface()
+    except Exception as e:  # never let an informational probe break a check
+        return [f"api probe failed: {e!r}"]
+    out = []
+    for k in sorted(set(cur) - set(snap)):
+        out.append(f"new: {k}({', '.join(cur[k])})")
+    for k in sorted(set(snap) - set(cur)):
+        out.append(f"gone: {k}")
+    for k in sorted(set(cur) & set(snap)):
+        if cur[k] != snap[k]:
+            out.append(f"changed: {k}({', '.join(snap[k])}) -> ({', '.join(cur[k])})")
+    return out
+
+
 def repo_tree_id() -> str:
     try:
         head = subprocess.run(["git", "-C", REPO_DIR, "rev-parse", "--short", "HEAD"],
@@ -551,6 +601,7 @@ def write_evidence(prop: str, tier: str, base_seed: int, agg: dict, info: dict, 
         "replays": info.get("replays", []),
         "harness_errors": agg["harness"][:5],
         "scoda_tree": repo_tree_id(),
+        "api_drift_vs_snapshot": api_drift(),
         "workers": agg.get("workers"),
     }
     ev = {
